@@ -60,6 +60,23 @@ def gen_c02(seed, tier):
     desc, rng = base_desc(seed, tier, p_nested=0.45, p_kw=0.45, p_unpack=0.15, p_gather=0.12, p_opaque=0.3,
                           p_const=0.2, p_shared_list=0.25 if seed % 3 == 1 else 0.0)
     desc["ops"][0]["cfg"]["retry"] = None
+    if seed % 41 == 11:
+        # unpack yields the n items the sequence had when it was unpacked: a later call that changes the list in place
+        # (ordered after the unpack, before some of the item accesses) does not change what the items are
+        n = rng.choice([2, 3, 4])
+        nodes = [dict(id=0, kind="call", args=[], kwargs=[], deps=[], scope=[], dur=0.0, ret=["list", n], fname="f", depth=0),
+                 dict(id=1, kind="unpack", args=[["n", 0]], n=n, items=list(range(2, 2 + n)), deps=[], scope=[], depth=0)]
+        nodes += [dict(id=2 + k, kind="item", of=1, index=k, deps=[], scope=[]) for k in range(n)]
+        m = 2 + n
+        nodes.append(dict(id=m, kind="call", args=[["n", 0], ["n", 2]], kwargs=[], deps=[], scope=[], dur=rng.choice([0.0, 1.0]),
+                          ret="val", fname="g", depth=0, mutates=True))
+        nodes.append(dict(id=m + 1, kind="call", args=[["n", 2 + k] for k in range(1, n)], kwargs=[], deps=[], scope=[], dur=0.0,
+                          ret="val", fname="h", depth=0))
+        world = dict(nodes=nodes, stores={}, late_deps=[[m, 2 + k] for k in range(1, n)],
+                     output=["T", [["n", m + 1], ["n", m]]])
+        desc["world"] = world
+        desc["ops"][0]["cfg"].update(max_errors=0, max_workers=rng.choice([1, 2, 3]))
+        return desc
     if seed % 10 == 7:
         # the same Plan object run by two or three threads at the same time: every run returns the reference value
         desc["mode"] = "concurrent"
@@ -160,7 +177,8 @@ def gen_c07(seed, tier):
     mode = rng0.random()
     if mode < 0.25:
         return gen_cyclic(seed, tier, rng0)
-    desc, rng = base_desc(seed, tier, faults=rng0.random() < 0.6, p_dep=0.3)
+    lits = dict(p_lit=0.35, p_lit_chain=0.3, p_late_dep=0.3) if seed % 5 == 2 else {}   # several literals with
+    desc, rng = base_desc(seed, tier, faults=rng0.random() < 0.6, p_dep=0.3, **lits)     # predecessors queued at once
     n = len(desc["world"]["nodes"])
     desc["ops"][0]["cfg"]["max_workers"] = rng.choice([1, 2, 3, n, n + 1, n + 3])
     return desc
@@ -460,6 +478,17 @@ def gen_c16(seed, tier):
     desc, rng = base_desc(seed, tier, p_nested=0.35, p_unpack=0.12, p_gather=0.1, p_const=0.05,
                           out_modes=("node", "node", "struct"))
     desc["ops"][0]["cfg"].update(max_errors=0, retry=None)
+    if seed % 3 == 1:
+        # consumers that fail on their first attempt(s) and succeed when retried: once they have finished - successfully -
+        # nothing of the failed attempts may keep their arguments alive
+        op = desc["ops"][0]
+        consumers = [n["id"] for n in desc["world"]["nodes"] if n["kind"] == "call" and ref.arg_preds(n)]
+        calls = {}
+        for c in consumers:
+            if rng.random() < 0.6:
+                calls[str(c)] = dict(exc=rng.choice(["E1", "E2", "F1"]), until=rng.choice([1, 1, 2]))
+        op["faults"] = dict(calls=calls)
+        op["cfg"].update(retry=rng.choice([3, 3, 4]), no_keep_exc=True, max_workers=rng.choice([1, 2, 3]))
     if seed % 3 == 0:
         # failing consumers: a failed consumer has finished, too
         op = desc["ops"][0]
@@ -978,6 +1007,29 @@ _gen_c10_base = gen_c10
 
 def gen_c10(seed, tier):  # noqa: F811
     rng = worldgen.child_rng(seed, "c10x")
+    if seed % 13 == 4:
+        # run(max_workers=None): the pool is sized from the core count; a wide plan keeps it saturated, with equal
+        # durations several calls finish at the same instant
+        # (r roots finishing at the same instant on different workers, each releasing its own children)
+        r = rng.choice([2, 2, 3])
+        d = rng.choice([0.0, 1.0])
+        nodes = [dict(id=i, kind="call", args=[], kwargs=[], deps=[], scope=[], dur=d, ret="val", fname="f", depth=0)
+                 for i in range(r)]
+        w = r
+        for root in range(r):
+            for _ in range(rng.randrange(2, 5)):
+                nodes.append(dict(id=len(nodes), kind="call", args=[["n", root]] if rng.random() < 0.7 else [], kwargs=[],
+                                  deps=[] if rng.random() < 0.7 else [root], scope=[], dur=rng.choice([d, d, 1.0]), ret="val",
+                                  fname=rng.choice(["f", "g"]), depth=0))
+                if not nodes[-1]["args"] and not nodes[-1]["deps"]:
+                    nodes[-1]["deps"] = [root]
+        w = len(nodes) - 1
+        nodes.append(dict(id=w + 1, kind="call", args=[["n", i] for i in range(r, w + 1)], kwargs=[], deps=[], scope=[], dur=0.0,
+                          ret="val", fname="h", depth=0))
+        world = dict(nodes=nodes, stores={}, late_deps=[], output=["n", w + 1])
+        cfg = dict(max_workers=None, cpu_count=rng.choice([1, 1, None, 2]), scheduler=rng.choice([None, "default", "random"]),
+                   max_errors=0, retry=None, stale_workers=None, output=True)
+        return dict(seed=seed, world=world, ops=[dict(op="run", cfg=cfg)], sched=worldgen.gen_sched(rng))
     if seed % 9 == 0:
         w = rng.randrange(2, 7)
         nodes = [dict(id=i, kind="call", args=[], kwargs=[], deps=[], scope=[], dur=0.0, ret="val", fname="f", depth=0,
@@ -1046,6 +1098,9 @@ def exec_c10(prop, desc):
 
     rec = machine.run_op(hist, op, 0, tape=tapes.get("0"), sim_hook=hook)
     viol = O.o_limits(rec, world, hist)
+    if not viol and not desc.get("rendezvous"):
+        # (a pool that ends up with more threads than the limit shows as threads that never get a sentinel)
+        viol = [v for v in O.o_term(rec, world, hist) if v["oracle"] in ("hang", "thread-leak")][:1]
     if not viol and rec.rt.conservation:
         viol.append(O.V("not-work-conserving", rec.rt.conservation))
     if not viol and desc.get("rendezvous"):
